@@ -11,6 +11,7 @@ from __future__ import annotations
 
 import itertools
 import json
+import math
 
 from hypothesis import strategies as st
 
@@ -19,24 +20,36 @@ from vlib.core import Soft, Sub
 PROPERTY_ID = "C09"
 LEVEL = "exploration"
 RULE = (
-    "A case is a generated tree (3-12 tips, rooted or unrooted, bi-/multifurcating, dyadic or float branch lengths, names "
-    "over letters plus space, underscore, quotes and newick punctuation) and a composition of 1-4 operations drawn from "
-    "newick round trips (escaped, underscore-unmunged / default), JSON and rich-dict round trips, copy, deepcopy, unrooted, "
-    "unrooted_deepcopy, rooted_at, rooted_with_tip, root_at_midpoint, sorted, get_sub_tree, bifurcating. After every operation "
-    "the result's tip set, bipartitions (restricted to retained tips) and all tip-to-tip path lengths are compared with the "
-    "model, and the receiver is re-observed to be unchanged. The distance sub-check compares tree_distance (all methods) "
-    "of tree pairs (NNI/SPR neighbour or independent tree) with split/cluster set computations and a brute-force matching. "
+    "A case is a generated tree (3-12 tips; in the thorough tier also caterpillars of 30-60 tips; rooted or unrooted, bi-/multifurcating; "
+    "branch lengths dyadic, float in [0.001, 3], float in [1e-12, 1e12], a list whose repr uses exponent notation (1e-05 ... 1e+22), python ints, "
+    "a per-tree power-of-ten scale, or a mixture; tip AND internal node names over letters plus space, underscore, quotes and newick "
+    "punctuation) and a composition of 1-4 operations drawn from newick round trips (escaped + underscore-unmunged, default, "
+    "with_node_names=True with/without semicolon, write(file)+load_tree for newick suffixes incl. .gz), JSON / rich-dict round trips "
+    "(in memory and write(file.json[.gz])+load_tree), copy, deepcopy, unrooted, unrooted_deepcopy, rooted_at (any internal name), "
+    "rooted_with_tip, root_at_midpoint, sorted, get_sub_tree (optionally ignore_missing=True with absent names and internal-node names), "
+    "bifurcating. After every operation the result's tip set, bipartitions (restricted to retained tips) and all tip-to-tip path lengths "
+    "are compared with the model, and the receiver is re-observed to be unchanged; for name-writing routes every named internal node must be "
+    "found again by get_node_matching_name above the same tips. Path lengths are correctly rounded sums (math.fsum) on both sides: they must be "
+    "bit-identical after operations that do no arithmetic, and agree to relative 1e-12 after unrooted/get_sub_tree (1e-12 of the largest "
+    "tip-to-tip distance after root_at_midpoint). The distance sub-check compares tree_distance (all methods), lin_rajan_moret, same_topology "
+    "and compare_by_subsets of tree pairs (shuffled, SPR neighbour, independent binary or multifurcating tree) with split/cluster set "
+    "computations and a brute-force matching. "
     "Non-trivial = >= 5 tips, a multifurcation or rooted input, and a re-rooting, unrooting or pruning step; distinct = "
     "distinct case encodings."
 )
 ASSUMPTIONS = [
-    "names do not both start and end with a single quote (get_newick treats such names as already quoted) and have no leading/trailing blanks",
-    "the default newick round trip (underscore_unmunge=False) is only required to preserve names that contain no space; with underscore_unmunge=True all names must survive",
-    "path lengths: exact equality for dyadic lengths, relative 1e-12 otherwise",
-    "get_sub_tree is asked for at least two tips; bifurcating() may add zero-length edges (topology refined, path lengths unchanged)",
+    "names do not both start and end with a single quote (get_newick treats such names as already quoted) and have no leading/trailing blanks; all node names of a tree are distinct (also after blank->underscore), none is 'root' or starts with 'edge.'",
+    "the default newick round trip (underscore_unmunge=False) is only required to preserve names that contain no space; with underscore_unmunge=True all names must survive (write(file) is read back with load_tree(underscore_unmunge=True))",
+    "path lengths are computed by the harness as correctly rounded sums of the edges on the path (no depth differences, so no cancellation); operations that only move or copy lengths (round trips, copies, sorted, re-rooting at a node / beside a tip, unrooted_deepcopy, bifurcating) must reproduce them bit for bit; unrooted() and get_sub_tree() add two lengths, so relative 1e-12 of the path length (exact for dyadic/int lengths below 2**20); root_at_midpoint() places the root from the maximum tip-to-tip distance, so 1e-12 of that distance; get_distances() (numpy accumulation) relative 1e-12",
+    "an int branch length may come back as the equal float (newick text '3' -> 3.0)",
+    "get_sub_tree is asked for at least two tips; with tipsonly=False an internal-node name in the list keeps that node's whole clade (pinned by tests/test_core/test_tree.py test_getsubtree_5), with tipsonly=True and ignore_missing=True it is ignored; absent names are only passed with ignore_missing=True; bifurcating() may add zero-length edges (topology refined, path lengths unchanged)",
+    "a composition stops after the first failed step, when an edge lost its length, or when root_at_midpoint produced a non-positive length through rounding (possible only when lengths of one tree span > 15 orders of magnitude); internal-node names are only required to survive routes documented to write them: get_newick(with_node_names=True), to_rich_dict/to_json (edge attributes are keyed by name), copy/deepcopy",
+    "same_topology is only asserted for pairs of unrooted trees without single-child nodes (it re-roots both beside the first tip, which leaves a degree-2 node in a rooted tree); compare_by_subsets is 1 - 2|A&B|/(|A|+|B|) over the sets of clusters (1 when both are empty), as its code and tests define",
 ]
 
 NAME_ALPHABET = "abcXY12 _'\"():,;[]-."
+# printable non-ASCII letters (1, 2 and 3 byte UTF-8) mixed with ASCII; nothing here needs newick quoting
+UNICODE_ALPHABET = "abX1 \u00e9\u00b5\u00f1\u00df\u03a9\u540d"
 
 
 # ------------------------------------------------------------------ model
@@ -82,28 +95,47 @@ def m_splits(node, keep=None):
 
 
 def m_paths(node):
-    """{frozenset({a,b}): path length} ; None lengths count as given default None -> skip"""
-    depth = {}
+    """{(a, b): path length}: the correctly rounded sum (math.fsum, so independent of the order
+    of the edges) of the lengths of the edges between the two tips; a missing length counts 0.
+    No depth differences are taken: with lengths spanning many orders of magnitude a
+    subtraction of root-to-tip depths would cancel."""
+    chain = {}
 
     def walk(n, anc):
-        # anc: list of (node id, cumulative length from root)
-        ln = n["len"] or 0.0
-        cur = anc + [(id(n), (anc[-1][1] if anc else 0.0) + (ln if anc else 0.0))]
+        # anc: list of (node id, length of the edge above that node); the root's own length is not on any path
+        cur = anc + [(id(n), (n["len"] or 0.0) if anc else 0.0)]
         if not n["kids"]:
-            depth[n["name"]] = cur
+            chain[n["name"]] = cur
         for k in n["kids"]:
             walk(k, cur)
 
     walk(node, [])
     out = {}
-    names = sorted(depth)
+    names = sorted(chain)
     for a, b in itertools.combinations(names, 2):
-        pa, pb = depth[a], depth[b]
+        pa, pb = chain[a], chain[b]
         i = 0
         while i < min(len(pa), len(pb)) and pa[i][0] == pb[i][0]:
             i += 1
-        lca_d = pa[i - 1][1]
-        out[(a, b)] = (pa[-1][1] - lca_d) + (pb[-1][1] - lca_d)
+        out[(a, b)] = math.fsum([x[1] for x in pa[i:]] + [x[1] for x in pb[i:]])
+    return out
+
+
+def m_named_clusters(node):
+    """{internal node name: frozenset of the tips below it} for named non-root internal nodes"""
+    out = {}
+
+    def walk(n, root):
+        if not n["kids"]:
+            return frozenset([n["name"]])
+        mine = frozenset()
+        for k in n["kids"]:
+            mine |= walk(k, False)
+        if not root and n["name"] is not None:
+            out[n["name"]] = mine
+        return mine
+
+    walk(node, True)
     return out
 
 
@@ -130,46 +162,88 @@ def to_real(model):
 
 
 # -------------------------------------------------------------- generator
+SPACED_SUFFIX = ["x", "ab", "c d"]
+# names the newick reader is known not to get back (known finding C09-newick-punctuation-name); the style
+# "fancy_readable" avoids them so that awkward names are also exercised on cases that are not excluded
+UNREADABLE_SINGLE = ("(", ")", ":", ",", ";", "[", "]")
+
+
+def _draw_name(draw, style, seen, idx, internal):
+    """one new node name in the given style, distinct (also after blank -> underscore) from those in ``seen``"""
+    if style == "plain":
+        nm = f"in{idx}" if internal else f"t{idx}"
+    elif style == "spaced":
+        # binomial-style names: letters, digits and single blanks, nothing that needs quoting
+        nm = f"{'cl' if internal else 'sp'}{idx} {draw(st.sampled_from(SPACED_SUFFIX))}{idx}"
+    else:
+        k = draw(st.integers(1, 6))
+        alphabet = UNICODE_ALPHABET if style == "unicode" else NAME_ALPHABET
+        nm = "".join(draw(st.lists(st.sampled_from(alphabet), min_size=k, max_size=k))).strip()
+        key = nm.replace(" ", "_")
+        unreadable = style == "fancy_readable" and (nm in UNREADABLE_SINGLE or nm.startswith("'"))
+        if not nm or key in seen or (nm.startswith("'") and nm.endswith("'")) or nm.startswith("edge.") or nm == "root" or unreadable:
+            stem = f"{'m' if internal else 'n'}{idx}"
+            nm = stem + nm.replace("'", "q")[:2]
+            if nm.replace(" ", "_") in seen or nm != nm.strip():
+                nm = stem
+    seen.add(nm.replace(" ", "_"))
+    return nm
+
+
 @st.composite
 def names_st(draw, n, plain):
-    if plain:
-        return [f"t{i}" for i in range(n)]
-    if draw(st.booleans()):
-        # binomial-style names: letters, digits and single blanks, nothing that needs quoting
-        return [f"sp{i} {draw(st.sampled_from(['x', 'ab', 'c d']))}{i}" for i in range(n)]
-    out = []
+    """tip names (kept for the distance sub-check and old callers)"""
+    style = "plain" if plain else draw(st.sampled_from(["spaced", "fancy", "fancy_readable", "unicode"]))
     seen = set()
-    while len(out) < n:
-        k = draw(st.integers(1, 6))
-        nm = "".join(draw(st.lists(st.sampled_from(NAME_ALPHABET), min_size=k, max_size=k))).strip()
-        key = nm.replace(" ", "_")
-        if not nm or key in seen or (nm.startswith("'") and nm.endswith("'")) or nm.startswith("edge.") or nm == "root":
-            nm = f"n{len(out)}" + nm.replace("'", "q")[:2]
-            key = nm.replace(" ", "_")
-            if key in seen or nm != nm.strip():
-                nm = f"n{len(out)}"
-                key = nm
-        seen.add(key)
-        out.append(nm)
-    return out
+    return [_draw_name(draw, style, seen, i, False) for i in range(n)]
+
+
+DYADIC = [0.125, 0.25, 0.5, 0.75, 1.0, 1.5, 2.0, 3.0]
+# floats whose repr (as written by get_newick / json.dumps) uses exponent notation
+EXPONENT_REPR = [1e-12, 1e-09, 3.3e-07, 1e-05, 2.5e-05, 1e16, 1.5e17, 2.5e20, 1e22]
+INT_LENGTHS = [1, 2, 3, 5, 10, 100, 1000]
+LENGTH_MODES = ["dyadic", "dyadic", "dyadic", "float", "float", "wide", "exp", "int", "scaled", "mixed"]
+
+
+def _length_drawer(draw, mode):
+    scale = 10.0 ** draw(st.integers(-12, 12)) if mode == "scaled" else None
+
+    def length(mode=mode):
+        if mode == "mixed":
+            return length(draw(st.sampled_from(["dyadic", "float", "wide", "exp", "int"])))
+        if mode == "dyadic":
+            return draw(st.sampled_from(DYADIC))
+        if mode == "float":
+            return draw(st.floats(0.001, 3.0, allow_nan=False, allow_infinity=False))
+        if mode == "wide":
+            return draw(st.floats(1e-12, 1e12, allow_nan=False, allow_infinity=False))
+        if mode == "exp":
+            return draw(st.sampled_from(EXPONENT_REPR))
+        if mode == "int":
+            return draw(st.one_of(st.sampled_from(INT_LENGTHS), st.integers(1, 50)))
+        return scale * draw(st.floats(0.01, 10.0, allow_nan=False, allow_infinity=False))
+
+    return length
 
 
 @st.composite
-def tree_st(draw, min_tips=3, max_tips=12):
+def tree_st(draw, min_tips=3, max_tips=12, caterpillar=False):
     n = draw(st.integers(min_tips, max_tips))
-    plain = draw(st.integers(0, 3)) > 0
-    names = draw(names_st(n, plain))
-    dyadic = draw(st.booleans())
-
-    def length():
-        if dyadic:
-            return draw(st.sampled_from([0.125, 0.25, 0.5, 0.75, 1.0, 1.5, 2.0, 3.0]))
-        return draw(st.floats(0.001, 3.0, allow_nan=False, allow_infinity=False))
-
-    nodes = [{"name": nm, "len": length(), "kids": []} for nm in names]
+    style = "plain" if draw(st.integers(0, 3)) > 0 else draw(st.sampled_from(["spaced", "fancy", "fancy_readable", "unicode"]))
+    # internal nodes: the tips' style, or plain in<k> (plain tips may also get awkward internal names)
+    istyle = draw(st.sampled_from([style, style, style, "plain", "spaced", "fancy", "fancy_readable", "unicode"]))
+    seen = set()
+    length = _length_drawer(draw, draw(st.sampled_from(LENGTH_MODES)))
+    nodes = [{"name": _draw_name(draw, style, seen, i, False), "len": length(), "kids": []} for i in range(n)]
     rooted = draw(st.booleans())
     root_deg = 2 if rooted else draw(st.sampled_from([3, 3, 4]))
     root_deg = min(root_deg, n)
+    if caterpillar:
+        # a ladder: every internal node has one tip child and the rest of the ladder
+        cur = nodes.pop()
+        while len(nodes) >= root_deg:
+            cur = {"name": None, "len": length(), "kids": [nodes.pop(), cur] if draw(st.booleans()) else [cur, nodes.pop()]}
+        nodes.append(cur)
     while len(nodes) > root_deg:
         k = draw(st.sampled_from([2, 2, 2, 3, 4]))
         k = min(k, len(nodes) - root_deg + 1)
@@ -185,7 +259,7 @@ def tree_st(draw, min_tips=3, max_tips=12):
     def name_internal(nd, is_root=False):
         if nd["kids"]:
             if not is_root:
-                nd["name"] = f"in{cnt[0]}"
+                nd["name"] = _draw_name(draw, istyle, seen, cnt[0], True)
                 cnt[0] += 1
             for k in nd["kids"]:
                 name_internal(k)
@@ -195,32 +269,56 @@ def tree_st(draw, min_tips=3, max_tips=12):
 
 
 OPS = [
-    "newick", "newick", "newick_default", "json", "rich_dict", "copy", "deepcopy", "unrooted", "unrooted", "unrooted_deepcopy",
-    "rooted_at", "rooted_with_tip", "rooted_with_tip", "root_at_midpoint", "root_at_midpoint", "sorted", "get_sub_tree",
-    "get_sub_tree", "bifurcating",
+    "newick", "newick", "newick_default", "newick_node_names", "newick_node_names", "newick_file", "json", "json", "json_file", "rich_dict",
+    "copy", "deepcopy", "unrooted", "unrooted", "unrooted_deepcopy",
+    "rooted_at", "rooted_at", "rooted_with_tip", "rooted_with_tip", "root_at_midpoint", "root_at_midpoint", "sorted", "get_sub_tree",
+    "get_sub_tree", "get_sub_tree", "bifurcating",
 ]
+# operations that only copy or move branch lengths: path lengths must come back bit for bit
+NO_ARITHMETIC = {
+    "newick", "newick_default", "newick_node_names", "newick_file", "json", "json_file", "rich_dict", "copy", "deepcopy",
+    "unrooted_deepcopy", "rooted_at", "rooted_with_tip", "sorted", "bifurcating",
+}
+# routes documented to write internal node names (get_newick(with_node_names=True); rich dict keyed by edge name; copies)
+KEEPS_NODE_NAMES = {"newick_node_names", "json", "json_file", "rich_dict", "copy", "deepcopy"}
+NEWICK_SUFFIXES = ["nwk", "tree", "newick", "nwk.gz", "txt"]
+JSON_SUFFIXES = ["json", "json.gz"]
+RTOL = 1e-12
 
 
 @st.composite
-def op_cases(draw):
-    tree = draw(tree_st())
+def op_cases(draw, caterpillar=False):
+    tree = draw(tree_st(30, 60, caterpillar=True)) if caterpillar else draw(tree_st())
     depth = draw(st.integers(1, 4))
     ops = []
+    pool = OPS
+    if not all(nm.isascii() for nm in _case_names({"tree": tree})):
+        pool = OPS + ["newick_file"] * 6  # the text-file route is where non-ASCII names matter
     for _ in range(depth):
-        op = draw(st.sampled_from(OPS))
+        op = draw(st.sampled_from(pool))
         # arguments are drawn as abstract choices, resolved against the current model when executed
-        ops.append({"op": op, "a": draw(st.integers(0, 10**6)), "b": draw(st.integers(0, 10**6)), "flag": draw(st.booleans()), "flag2": draw(st.booleans())})
+        ops.append({"op": op, "a": draw(st.integers(0, 10**6)), "b": draw(st.integers(0, 10**6)), "c": draw(st.integers(0, 10**6)),
+                    "flag": draw(st.booleans()), "flag2": draw(st.booleans()), "flag3": draw(st.booleans())})
     return {"tree": tree, "ops": ops}
 
 
+def ops_strategy(tier):
+    if tier == "thorough":
+        # 1 case in 40 is a deep ladder (recursive copy / parse / re-rooting routes)
+        return st.integers(0, 39).flatmap(lambda k: op_cases(caterpillar=(k == 0)))
+    return op_cases()
+
+
 # ---------------------------------------------------------------- execute
-def close(a, b, exact):
+def close(a, b, exact, scale=None):
+    """exact: bit-identical; otherwise |a-b| <= RTOL * max(|a|,|b|) (or RTOL * scale when a scale is given)"""
     if exact:
         return a == b
-    return abs(a - b) <= 1e-12 * max(1.0, abs(a), abs(b))
+    ref = max(abs(a), abs(b)) if scale is None else scale
+    return abs(a - b) <= RTOL * ref
 
 
-def compare(s: Soft, sig, real_tree, want_model, what, keep=None, exact=True, check_api=True, refine_ok=False):
+def compare(s: Soft, sig, real_tree, want_model, what, keep=None, exact=True, check_api=True, refine_ok=False, scale=None, node_names=False):
     ok, got = s.call(sig + "/observe", observe_real, real_tree)
     if not ok:
         return
@@ -235,8 +333,17 @@ def compare(s: Soft, sig, real_tree, want_model, what, keep=None, exact=True, ch
     else:
         s.eq(sorted(map(sorted, gs)), sorted(map(sorted, ws)), sig + "/topology", what)
     wp, gp = m_paths(want_model), m_paths(got)
-    bad = [(k, gp.get(k), v) for k, v in wp.items() if (keep is None or (k[0] in keep and k[1] in keep)) and not close(gp.get(k, float("nan")), v, exact)]
-    s.check(not bad, sig + "/path-lengths", f"{what}: (pair, got, want) {bad[:3]}")
+    bad = [(k, gp.get(k), v) for k, v in wp.items() if (keep is None or (k[0] in keep and k[1] in keep)) and not close(gp.get(k, float("nan")), v, exact, scale)]
+    s.check(not bad, sig + "/path-lengths", f"{what}: (pair, got, want) {bad[:3]} ({'bit-identical' if exact else 'relative 1e-12'})")
+    if node_names:
+        for nm, below in sorted(m_named_clusters(want_model).items()):
+            if nm.startswith("edge."):
+                continue  # automatic names of unnamed nodes are not data
+            ok, node = s.call(sig + "/node-names", real_tree.get_node_matching_name, nm)
+            if not ok:
+                break
+            if not s.check(sorted(node.get_tip_names()) == sorted(below), sig + "/node-names", f"{what}: node {nm!r} is above {sorted(node.get_tip_names())}, was above {sorted(below)}"):
+                break
     if check_api and _all_lengths(got):
         ok, tn = s.call(sig + "/get_tip_names", real_tree.get_tip_names)
         if ok:
@@ -246,48 +353,91 @@ def compare(s: Soft, sig, real_tree, want_model, what, keep=None, exact=True, ch
             bad = []
             for (a, b), v in gp.items():
                 d = gd.get((a, b))
-                if d is None or not close(d, v, False):
+                if d is None or not close(d, v, False, scale):
                     bad.append(((a, b), d, v))
             s.check(not bad, sig + "/get_distances", f"{what}: (pair, api, structure) {bad[:3]}")
 
 
+def _exact_lengths(model):
+    """sums of these lengths are exactly representable: multiples of 1/8 below 2**20"""
+    return all(float(x * 8).is_integer() and x < 2**20 for x in _lengths(model))
+
+
 def exec_ops(case) -> Soft:
-    from cogent3 import make_tree
+    from cogent3 import load_tree, make_tree
+    from cogent3.core.tree import TreeError
     from cogent3.util.deserialise import deserialise_object
     import copy as _copy
+    import os
+    import tempfile
 
     s = Soft("C09/")
     model = case["tree"]
     ok, tree = s.call("construct", to_real, model)
     if not ok:
         return s
-    exact = all(float(x).is_integer() for x in [n * 8 for n in _lengths(model)])
-    compare(s, "construct", tree, model, "freshly built tree", exact=exact)
+    compare(s, "construct", tree, model, "freshly built tree", node_names=True)
+    if s.failures:
+        return s
     ntips = len(m_tips(model))
     rooted_in = len(model["kids"]) == 2
     multif = _has_polytomy(model)
+    lens = _lengths(model)
     s.cls("rooted" if rooted_in else "unrooted", "multifurcating" if multif else "bifurcating")
+    s.cls("lengths:" + ("int" if all(isinstance(x, int) for x in lens) else "exponent-repr" if any("e" in repr(float(x)) for x in lens) else "plain-repr"))
+    if any(isinstance(x, int) for x in lens):
+        s.cls("lengths:has-int")
+    if max(lens) / min(lens) > 1e9:
+        s.cls("lengths:range>1e9")
+    if ntips >= 30:
+        s.cls("deep-ladder")
+    if not all(nm.isascii() for nm in _case_names(case)):
+        s.cls("names:non-ascii")
+    if any(not (nm.startswith("in") and nm[2:].isdigit()) for nm in _internal_names(model) if nm):
+        s.cls("internal-names:awkward")
+
+    def via_file(suffix, **load_kw):
+        def fn():
+            with tempfile.TemporaryDirectory(prefix="c09.") as d:
+                path = os.path.join(d, "tree." + suffix)
+                tree.write(path)
+                return load_tree(path, **load_kw)
+
+        return fn
+
     reroot = False
     zero_lengths = False
     for step in case["ops"]:
         op = step["op"]
-        if zero_lengths and op not in ("newick", "newick_default", "json", "rich_dict", "copy", "deepcopy", "sorted"):
+        if zero_lengths and op not in ("newick", "newick_default", "newick_node_names", "newick_file", "json", "json_file", "rich_dict", "copy", "deepcopy", "sorted"):
             continue  # the statement quantifies over positive branch lengths
         tips = sorted(m_tips(model))
-        internals = [n for n in _internal_names(model)]
+        internals = [n for n in _internal_names(model) if n is not None]
         keep = None
         refine_ok = False
         want = model
         sig = op
-        names_have_space = any(" " in t for t in tips) or any(" " in (i or "") for i in internals)
+        allowed = ()
+        names_have_space = any(" " in t for t in tips) or any(" " in i for i in internals)
+        non_ascii = not all(nm.isascii() for nm in tips + internals)
         if op == "newick":
             fn = lambda: make_tree(tree.get_newick(with_distances=True, escape_name=True), underscore_unmunge=True)  # noqa: E731
         elif op == "newick_default":
             if names_have_space:
                 continue
             fn = lambda: make_tree(tree.get_newick(with_distances=True))  # noqa: E731
+        elif op == "newick_node_names":
+            semi = step["flag"]
+            fn = lambda: make_tree(tree.get_newick(with_distances=True, with_node_names=True, escape_name=True, semicolon=semi), underscore_unmunge=True)  # noqa: E731
+        elif op == "newick_file":
+            fn = via_file(NEWICK_SUFFIXES[step["a"] % len(NEWICK_SUFFIXES)], underscore_unmunge=True)
+            if non_ascii:
+                sig = "newick_file[non-ascii]"  # own circumstance: the reader has to guess the text encoding
         elif op == "json":
             fn = lambda: deserialise_object(json.loads(tree.to_json()))  # noqa: E731
+        elif op == "json_file":
+            fn = via_file(JSON_SUFFIXES[step["a"] % len(JSON_SUFFIXES)])
+            sig = "json/file"
         elif op == "rich_dict":
             fn = lambda: deserialise_object(tree.to_rich_dict())  # noqa: E731
         elif op == "copy":
@@ -327,9 +477,26 @@ def exec_ops(case) -> Soft:
             if len(keep) < 2:
                 continue
             kr, to = step["flag"], step["flag2"]
-            fn = lambda: tree.get_sub_tree(keep, keep_root=kr, tipsonly=to)  # noqa: E731
-            reroot = True
+            asked = list(keep)
             sig = f"get_sub_tree[keep_root={kr}]"
+            kw = {}
+            if step.get("flag3"):
+                # names that are not in the tree, and sometimes the name of an internal node
+                c = step.get("c", 0)
+                kw["ignore_missing"] = True
+                sig = f"get_sub_tree[keep_root={kr},ignore_missing]"
+                absent = [nm for nm in (f"zz{c % 7}", f"zz {c % 5} q") if nm not in tips and nm not in internals]
+                asked = asked + absent[: 1 + c % 2]
+                if internals and c % 3 != 0:
+                    inode = internals[(c // 3) % len(internals)]
+                    asked.append(inode)
+                    if not to:  # tipsonly=False: a listed internal node keeps its whole clade
+                        keep = sorted(set(keep) | m_named_clusters(model)[inode])
+                rot = c % len(asked)
+                asked = asked[rot:] + asked[:rot]
+                s.cls("get_sub_tree:ignore_missing")
+            fn = lambda: tree.get_sub_tree(asked, keep_root=kr, tipsonly=to, **kw)  # noqa: E731
+            reroot = True
         elif op == "bifurcating":
             fn = tree.bifurcating
             refine_ok = True
@@ -338,13 +505,18 @@ def exec_ops(case) -> Soft:
             continue
         before = observe_real(tree)
         nfail = len(s.failures)
-        ok, res = s.call(sig, fn)
+        ok, res = s.call(sig, fn, allowed=allowed)
         if not ok:
             # the receiver must still be intact
-            compare(s, sig + "/receiver-after-failure", tree, model, f"receiver after failed {op}", exact=exact, check_api=False)
+            compare(s, sig + "/receiver-after-failure", tree, model, f"receiver after failed {op}", check_api=False)
             return s
         what = f"{op} on {_brief(model)}"
-        compare(s, sig, res, want, what, keep=keep, exact=exact and op not in ("root_at_midpoint",), refine_ok=refine_ok)
+        exact = op in NO_ARITHMETIC or (_exact_lengths(model) and op != "root_at_midpoint")
+        scale = None
+        if op == "root_at_midpoint":
+            # the root is placed by arithmetic on the maximum tip-to-tip distance
+            scale = max(m_paths(model).values())
+        compare(s, sig, res, want, what, keep=keep, exact=exact, refine_ok=refine_ok, scale=scale, node_names=op in KEEPS_NODE_NAMES)
         # receiver unchanged (structure, names, lengths)
         after = observe_real(tree)
         s.check(after == before, sig + "/receiver-mutated", f"{what}: receiver changed from {_brief(before)} to {_brief(after)}")
@@ -366,6 +538,13 @@ def exec_ops(case) -> Soft:
             break  # the statement quantifies over trees with branch lengths
         if len(m_tips(model)) < 3:
             break
+        lens = _lengths(model)
+        if lens and min(lens) < 0:
+            # midpoint arithmetic on lengths spanning > 15 orders of magnitude; the statement quantifies over positive lengths
+            s.cls("stopped-nonpositive-length")
+            break
+        if lens and min(lens) == 0:
+            zero_lengths = True
     s.nontrivial = ntips >= 5 and (multif or rooted_in) and reroot
     return s
 
@@ -389,7 +568,7 @@ def _check_midpoint(s, res, what):
     walk(got, 0.0)
     depths.sort(reverse=True)
     if mx > 0:
-        s.check(abs(depths[0] - mx / 2) <= 1e-9 * max(1, mx), "root_at_midpoint/not-midpoint", f"{what}: deepest tip at {depths[0]}, half of max tip-tip distance is {mx / 2}")
+        s.check(abs(depths[0] - mx / 2) <= 1e-9 * mx, "root_at_midpoint/not-midpoint", f"{what}: deepest tip at {depths[0]}, half of max tip-tip distance is {mx / 2}")
 
 
 def _all_lengths(n, root=True):
@@ -436,7 +615,7 @@ def _brief(n):
 @st.composite
 def pair_cases(draw):
     t1 = draw(tree_st(4, 9))
-    mode = draw(st.sampled_from(["same", "shuffled", "spr", "independent"]))
+    mode = draw(st.sampled_from(["same", "shuffled", "spr", "spr", "independent", "independent", "independent_multi"]))
     return {"tree": t1, "mode": mode, "a": draw(st.integers(0, 10**6)), "b": draw(st.integers(0, 10**6)), "c": draw(st.integers(0, 10**6))}
 
 
@@ -460,16 +639,17 @@ def _second_tree(case):
         sh(t)
         return t
     tips = m_tips(t)
-    if mode == "independent":
-        # same tips, new random topology with the same root degree
+    if mode in ("independent", "independent_multi"):
+        # same tips, new random topology with the same root degree (binary, or with polytomies and mixed lengths)
+        multi = mode == "independent_multi"
         nodes = [{"name": nm, "len": 1.0, "kids": []} for nm in tips]
         rnd.shuffle(nodes)
         deg = len(t["kids"])
         c = 0
         while len(nodes) > deg:
-            a = nodes.pop(rnd.randrange(len(nodes)))
-            b = nodes.pop(rnd.randrange(len(nodes)))
-            nodes.append({"name": f"x{c}", "len": 1.0, "kids": [a, b]})
+            k = min(rnd.choice([2, 2, 3, 4]) if multi else 2, len(nodes) - deg + 1)
+            kids = [nodes.pop(rnd.randrange(len(nodes))) for _ in range(k)]
+            nodes.append({"name": f"x{c}", "len": rnd.choice([0.5, 1.0, 2.5]) if multi else 1.0, "kids": kids})
             c += 1
         return {"name": "root", "len": None, "kids": nodes}
     # spr: move one tip to be sister of another tip
@@ -586,12 +766,36 @@ def exec_pair(case) -> Soft:
 
             want = _brute_matching(s1, s2, w, lambda a: min(len(a), n - len(a)))
             s.eq(int(d12), want, f"{meth}/brute-force-matching", what)
-    s.nontrivial = n >= 5 and case["mode"] in ("spr", "independent") and not (same_rooted if rooted else same_unrooted)
+    what = f"{_brief(m1)} vs {_brief(m2)}"
+    # compare_by_subsets: 1 - 2|A & B| / (|A| + |B|) over the cluster sets, 1 when both are empty
+    tot = len(c1) + len(c2)
+    want = 1 - 2 * len(c1 & c2) / tot if tot else 1
+    ok, v12 = s.call("compare_by_subsets", t1.compare_by_subsets, t2)
+    ok2, v21 = s.call("compare_by_subsets", t2.compare_by_subsets, t1)
+    if ok and ok2:
+        s.eq(v12, v21, "compare_by_subsets/symmetry", what)
+        s.check(abs(v12 - want) <= 1e-12, "compare_by_subsets/cluster-sets", f"{what}: got {v12}, cluster sets give {want}")
+        if tot:
+            s.check((v12 == 0) == same_rooted, "compare_by_subsets/zero-iff-equal-clusters", f"{what}: got {v12}, same clusters {same_rooted}")
+    if not rooted:
+        # same_topology: the unrooted topologies (bipartition sets) agree
+        ok, st12 = s.call("same_topology", t1.same_topology, t2)
+        ok2, st21 = s.call("same_topology", t2.same_topology, t1)
+        if ok and ok2:
+            s.eq(bool(st12), same_unrooted, "same_topology/split-sets", what)
+            s.eq(bool(st21), same_unrooted, "same_topology/split-sets", what)
+        # the method form of the Lin-Rajan-Moret distance
+        allowed = (ValueError,) if len(s1) != len(s2) else ()
+        ok, lrm = s.call("lin_rajan_moret-method", t1.lin_rajan_moret, t2, allowed=allowed)
+        ok2, td = s.call("lin_rajan_moret-method", t1.tree_distance, t2, "lrm", allowed=allowed)
+        if ok and ok2:
+            s.eq(int(lrm), int(td), "lin_rajan_moret-method/equals-tree_distance", what)
+    s.nontrivial = n >= 5 and case["mode"] in ("spr", "independent", "independent_multi") and not (same_rooted if rooted else same_unrooted)
     return s
 
 
 SUBS = [
-    Sub("ops", exec_ops, strategy=op_cases(), quick=3000, thorough=320_000, shards_quick=16),
+    Sub("ops", exec_ops, strategy=ops_strategy, quick=3000, thorough=320_000, shards_quick=16),
     Sub("distances", exec_pair, strategy=pair_cases(), quick=1200, thorough=96_000, shards_quick=16),
 ]
 
@@ -618,7 +822,7 @@ def _case_names(case):
 
 def _kp_newick_unreadable_name(case, sig, msg):
     """a node name that is exactly one newick punctuation character, or that starts with a single quote"""
-    return any(n in ("(", ")", ":", ",", ";", "[", "]") or n.startswith("'") for n in _case_names(case))
+    return any(n in UNREADABLE_SINGLE or n.startswith("'") for n in _case_names(case))
 
 
 def _kp_json_special_name(case, sig, msg):
